@@ -29,6 +29,11 @@ func C17(c *fw.Ctx) {
 		}
 		label := j.ID[:strings.Index(j.ID, "/")]
 		c.Inc("streams", label, 1)
+		if res.Fatal != nil {
+			// the worker died or hung while building or while serialising/exporting: either way the accessor never returned
+			c.Violate("fatal:"+res.Fatal.Kind+":"+res.Fatal.Func, "the worker process died or hung during the job: "+firstLines(res.Fatal.Stderr, 5), replayOf(j, res))
+			return
+		}
 		if sig, _ := crashSig(res); sig != "" || !res.Accepted {
 			c.Count(jobKey(j), false)
 			c.Inc("verdicts", "not-accepted", 1)
@@ -64,6 +69,9 @@ func C17(c *fw.Ctx) {
 				}
 				for _, e := range rep.Errors {
 					rule := e[:strings.Index(e, ":")]
+					if rule == "ref-unresolved" && strings.Contains(e, `"#/components/schemas/mixed"`) {
+						rule += ":mixed" // a reference to the pseudo type of a union, see known finding D36
+					}
 					c.Violate("openapi:"+rule, e, replayOf(j, res))
 				}
 				if c.NeedSample() && op == "openapi" && label == "targeted" {
